@@ -131,7 +131,7 @@ impl Property for C17 {
         vec!["a string constant is everything between the first and the last quote of its line (strings with raw line breaks are outside the property's precondition and are counted as excluded)".into()]
     }
     fn random_cases(&self, tier: Tier) -> u64 {
-        tier.pick(40_000, 2_000_000)
+        tier.pick(200_000, 4_000_000)
     }
     fn max_tape(&self) -> usize {
         900
